@@ -60,6 +60,7 @@ structure Target where
   base : Int            -- the original returns base + numbers of its arguments
   pa : Bool             -- (*node, interface{}) → (*node, interface{}) shape
   name : String := "probe-target"
+  org : Bool := false   -- leaf target mocked with an Origin placeholder: callbacks may call the original
   loggerCalls : Bool := false
 
 def recvK : List Kind := [.ptr]
@@ -73,6 +74,9 @@ def target (t : String) : Option Target :=
   | "fa" => some { sig := { params := [.iface], velem := none, nOut := 1, isMethod := false }, kind := .patch, base := 6000, pa := false }
   | "it" => some { sig := { params := [.int], velem := none, nOut := 1, isMethod := false }, kind := .patch, base := 0, pa := false,
                    name := "strconv.Itoa", loggerCalls := true }
+  | "ow" => some { sig := { params := [], velem := none, nOut := 1, isMethod := false }, kind := .patch, base := 57, pa := false, org := true }
+  | "ox" => some { sig := { params := [.int], velem := none, nOut := 1, isMethod := false }, kind := .patch, base := 12, pa := false, org := true }
+  | "oz" => some { sig := { params := [.int], velem := none, nOut := 1, isMethod := false }, kind := .patch, base := 7, pa := false, org := true }
   | "ms" => some { sig := { params := recvK ++ [.int, .str], velem := none, nOut := 1, isMethod := true }, kind := .patch, base := 4000, pa := false }
   | "mv" => some { sig := { params := recvK ++ [.str], velem := some .int, nOut := 1, isMethod := true }, kind := .patch, base := 5000, pa := false }
   | "ia" => some { sig := { params := recvK ++ [.int, .str], velem := none, nOut := 1, isMethod := true }, kind := .iface, base := 7000, pa := false }
@@ -134,6 +138,7 @@ def parseCb (tg : Target) (t : String) : Option Cb :=
   let num (p : String) : Option Int := parseIntTok (String.ofList (t.toList.drop p.length))
   if t.startsWith "sum" then (if tg.pa then none else (num "sum").map (fun k => { name := t, kind := .sum, k := k }))
   else if t.startsWith "pan" then (num "pan").map (fun k => { name := t, kind := .pan, k := k })
+  else if t.startsWith "org" then (if tg.org then (num "org").map (fun k => { name := t, kind := .org, k := k }) else none)
   else if t == "nilp" then some { name := t, kind := .nilp, k := 0 }
   else if t == "echo" then (if tg.pa then some { name := t, kind := .echo, k := 0 } else none)
   else if t == "retn" then (if tg.pa then some { name := t, kind := .retn, k := 0 } else none)
@@ -208,6 +213,16 @@ def handle (toks : List String) : Option String :=
       | none => some "bad-op"
     | _, _ => some "bad-op"
   | "c19.s" :: _ => some "bad-op"
+  | ["c19.lib", cfg, _fn] =>
+    -- a one-string-parameter stand-in: Apply(callback); one call; Reset — for a function the logger does not call
+    match parseCfg cfg with
+    | some c =>
+      let env : Env := { sig := { params := [.str], velem := none, nOut := 1, isMethod := false }, kind := .patch, name := "lib",
+                         render := renderDrv, orig := fun _ => [intVal 0] }
+      let (_, s) := run env (initSt c) [.apply { name := "m", kind := .sum, k := 0 }, .call [strAtom "sx"], .cancel]
+      some ("lib n=" ++ toString s.wraps.length ++ (if s.dead then " dead" else " r=m"))
+    | none => some "bad-op"
+  | "c19.lib" :: _ => some "bad-op"
   | "c19.sv" :: vals =>
     match vals.mapM parseSvTok with
     | some vs =>
